@@ -254,6 +254,12 @@ func (g *mGlyph) charstring(r *rng, subrs *[][]byte) []byte {
 		}
 		w.op(opClosepath)
 	}
+	if r.chance(1, 8) && len(*subrs) < 100 {
+		// the whole glyph in a subroutine: a charstring of three bytes (shorter than the customary four lead
+		// bytes; with lenIV 0 or 1 it is shorter than 4 bytes even when encrypted)
+		*subrs = append(*subrs, append(w.buf, csOp(opReturn)...))
+		return cat(csInt(len(*subrs)-1), csOp(opCallsubr), csOp(opEndchar))
+	}
 	w.op(opEndchar)
 	return w.buf
 }
@@ -343,19 +349,20 @@ func randModelGlyph(r *rng) *mGlyph {
 }
 
 type modelFont struct {
-	name     string
-	glyphs   map[string]*mGlyph
-	info     map[string]string
-	italic   float64
-	fixed    bool
-	ulPos    float64
-	ulThick  float64
-	matrix   [6]float64
-	private  map[string]string
-	encoding []string // nil, or 256 names (possibly naming absent glyphs)
-	stdEnc   bool
-	date     time.Time
-	dateText string
+	name        string
+	forceFormat string // when set: the container of the rendering
+	glyphs      map[string]*mGlyph
+	info        map[string]string
+	italic      float64
+	fixed       bool
+	ulPos       float64
+	ulThick     float64
+	matrix      [6]float64
+	private     map[string]string
+	encoding    []string // nil, or 256 names (possibly naming absent glyphs)
+	stdEnc      bool
+	date        time.Time
+	dateText    string
 }
 
 func randModelFont(r *rng) *modelFont {
@@ -399,44 +406,17 @@ func randModelFont(r *rng) *modelFont {
 			f.encoding[r.intn(256)] = pick(r, append(append([]string{}, std...), "absentglyph"))
 		}
 	}
-	// accented composite: needs base and accent in the encoding actually used
-	if (f.stdEnc || f.encoding != nil) && f.glyphs["e"] != nil && f.glyphs["acute"] != nil && r.chance(1, 2) {
-		bc, ac := -1, -1
-		for i := 0; i < 256; i++ {
-			n := ""
-			if f.stdEnc {
-				n = psenc.StandardEncoding[i]
-			} else {
-				n = f.encoding[i]
-			}
-			if n == "e" {
-				bc = i
-			}
-			if n == "acute" {
-				ac = i
-			}
+	// accented composites: bchar and achar of seac are codes of the STANDARD encoding (e = 101, acute = 194,
+	// grave = 193), whatever encoding the font itself has - or none; the composite declares its own width
+	if f.glyphs["e"] != nil && f.glyphs["acute"] != nil && r.chance(1, 2) {
+		bc, ac, gc := 101, 194, 193
+		f.glyphs["eacute"] = &mGlyph{sbx: r.rangeInt(0, 80), wx: r.rangeInt(0, 1500), seac: &[4]int{r.rangeInt(-50, 200), r.rangeInt(-50, 300), bc, ac}}
+		// several composites on one base (and on one accent) must not influence each other
+		if f.glyphs["grave"] != nil {
+			f.glyphs["egrave"] = &mGlyph{sbx: r.rangeInt(0, 80), wx: r.rangeInt(0, 1500), seac: &[4]int{r.rangeInt(-50, 200), r.rangeInt(-50, 300), bc, gc}}
 		}
-		if bc >= 0 && ac >= 0 {
-			f.glyphs["eacute"] = &mGlyph{sbx: r.rangeInt(0, 80), wx: f.glyphs["e"].wx, seac: &[4]int{r.rangeInt(-50, 200), r.rangeInt(-50, 300), bc, ac}}
-			// several composites on one base (and on one accent) must not influence each other
-			gc := -1
-			for i := 0; i < 256; i++ {
-				n := ""
-				if f.stdEnc {
-					n = psenc.StandardEncoding[i]
-				} else {
-					n = f.encoding[i]
-				}
-				if n == "grave" {
-					gc = i
-				}
-			}
-			if gc >= 0 && f.glyphs["grave"] != nil {
-				f.glyphs["egrave"] = &mGlyph{sbx: r.rangeInt(0, 80), wx: f.glyphs["e"].wx, seac: &[4]int{r.rangeInt(-50, 200), r.rangeInt(-50, 300), bc, gc}}
-			}
-			if r.chance(1, 2) {
-				f.glyphs["e.alt"] = &mGlyph{sbx: r.rangeInt(0, 80), wx: f.glyphs["e"].wx, seac: &[4]int{r.rangeInt(-50, 200), r.rangeInt(-50, 300), bc, ac}}
-			}
+		if r.chance(1, 2) {
+			f.glyphs["e.alt"] = &mGlyph{sbx: r.rangeInt(0, 80), wx: f.glyphs["e"].wx, seac: &[4]int{r.rangeInt(-50, 200), r.rangeInt(-50, 300), bc, ac}}
 		}
 	}
 	if r.chance(1, 2) {
@@ -529,6 +509,9 @@ func (mf *modelFont) renderParts(r *rng) (*renderFont, renderLayout) {
 	_ = 0
 	l := renderLayout{Format: pick(r, []string{"pfa", "pfa", "binary", "pfb", "clear"}), AltNames: r.chance(1, 2), HexUpper: r.chance(1, 2),
 		HexWidth: pick(r, []int{32, 2, 3, 40, 1000000}), WS: pick(r, []string{" ", "  ", "\t", " % comment\n"}), CSIV: byte(r.intn(256))}
+	if mf.forceFormat != "" {
+		l.Format = mf.forceFormat
+	}
 	for {
 		l.IV = [4]byte{byte(r.intn(256)), byte(r.intn(256)), byte(r.intn(256)), byte(r.intn(256))}
 		// a legal prefix for binary eexec: the first cipher byte is not white space and
@@ -595,13 +578,14 @@ func (mf *modelFont) expected() *type1.Font {
 	} else if mf.encoding != nil {
 		enc = append([]string{}, mf.encoding...)
 	}
-	// composites: base outline plus the accent shifted by (adx, ady); width and hints of the base
+	// composites: base outline plus the accent shifted by (adx, ady); hints of the base, the composite's own width
 	for n, g := range mf.glyphs {
 		if g.seac == nil {
 			continue
 		}
-		base, accent := f.Glyphs[enc[g.seac[2]]], f.Glyphs[enc[g.seac[3]]]
-		comp := &type1.Glyph{WidthX: base.WidthX, WidthY: base.WidthY, HStem: base.HStem, VStem: base.VStem}
+		base, accent := f.Glyphs[psenc.StandardEncoding[g.seac[2]]], f.Glyphs[psenc.StandardEncoding[g.seac[3]]]
+		own := g.expected()
+		comp := &type1.Glyph{WidthX: own.WidthX, WidthY: own.WidthY, HStem: base.HStem, VStem: base.VStem}
 		comp.Cmds = append(comp.Cmds, base.Cmds...)
 		for _, c := range accent.Cmds {
 			args := append([]float64{}, c.Args...)
@@ -639,6 +623,13 @@ func t1readCase(o *suiteOut, line string) {
 	fmt.Sscan(f[1], &seed)
 	r := newRng(seed)
 	mf := randModelFont(r)
+	if f[0] == "t1readbig" {
+		// a font whose eexec section is longer than 64 kB (PFB segment lengths need more than two bytes)
+		for i := 0; i < 1700; i++ {
+			mf.glyphs[fmt.Sprintf("g%04d", i)] = randModelGlyph(r)
+		}
+		mf.forceFormat = f[2]
+	}
 	data, desc := mf.render(r)
 	got, err, pan := readFont(data)
 	if pan != "" {
@@ -662,6 +653,10 @@ func t1readCase(o *suiteOut, line string) {
 		res, _, _ := runProgram(3000000, true, data)
 		o.emit(runCaseLine(3000000, true, string(data)), res, true)
 		o.count("font programs through the interpreter model")
+	}
+	if len(data) < 20000 {
+		t1rLine(o, data)
+		o.count("fonts through the reader model (t1r)")
 	}
 }
 
@@ -705,6 +700,14 @@ func suiteT1read(o *suiteOut, r *rng, tier string, n int) {
 	}
 	for i := 0; i < nr; i++ {
 		t1readCase(o, fmt.Sprintf("t1read %d", r.next()%1000000007))
+	}
+	nbig := 3
+	if tier == "thorough" {
+		nbig = 40
+	}
+	for i := 0; i < nbig; i++ {
+		t1readCase(o, fmt.Sprintf("t1readbig %d %s", r.next()%1000000007, []string{"pfb", "binary", "pfa"}[i%3]))
+		o.count("fonts with more than 64 kB of charstrings")
 	}
 	o.notes = append(o.notes, "model fonts (glyph sets, integer and rational coordinates, stems, sbw, composites, info strings over all bytes, private values, dates in three layouts) x layouts of the harness's own Type 1 writer (PFA upper/lower hex with any line width, binary, PFB, unencrypted; lenIV absent/0/1/4/7; hlineto vs rlineto, 5-byte numbers, p q div, subroutine factoring with nesting, flex after move/line/curve, hint replacement, dotsection; RD/ND/NP or -| |- |; StandardEncoding or explicit array naming absent glyphs); direct oracle: field-by-field comparison with the model font; the font programs below 12 kB also run through the Lean interpreter model")
 }
